@@ -80,6 +80,7 @@ type gatedConn struct {
 	rbuf     bytes.Buffer
 	rcond    *sync.Cond
 	closed   bool
+	rerr     error // Read fails with this error once the buffered octets are consumed (reset inside a frame)
 	closedCh chan struct{}
 	wcancel  *gate // QUIC CancelWrite: a blocked or later Write fails without touching its argument
 }
@@ -119,10 +120,13 @@ func (c *gatedConn) Write(p []byte) (int, error) {
 func (c *gatedConn) Read(p []byte) (int, error) {
 	c.mu.Lock()
 	defer c.mu.Unlock()
-	for c.rbuf.Len() == 0 && !c.closed {
+	for c.rbuf.Len() == 0 && !c.closed && c.rerr == nil {
 		c.rcond.Wait()
 	}
 	if c.rbuf.Len() == 0 {
+		if c.rerr != nil {
+			return 0, c.rerr
+		}
 		return 0, io.EOF
 	}
 	return c.rbuf.Read(p)
@@ -132,6 +136,14 @@ func (c *gatedConn) Read(p []byte) (int, error) {
 func (c *gatedConn) feed(b []byte) {
 	c.mu.Lock()
 	c.rbuf.Write(b)
+	c.mu.Unlock()
+	c.rcond.Broadcast()
+}
+
+// failRead makes Read return err as soon as the octets fed so far are consumed.
+func (c *gatedConn) failRead(err error) {
+	c.mu.Lock()
+	c.rerr = err
 	c.mu.Unlock()
 	c.rcond.Broadcast()
 }
@@ -324,10 +336,23 @@ func c20Events() (string, int) {
 		ks = append(ks, fmt.Sprintf("%s:%d", k, c))
 		n += c
 	}
-	sort.Strings(ks)
 	if len(evs) > 0 {
 		fmt.Fprintf(os.Stderr, "C20 hook events: %d (first: %s)\n", n, evs[0].String())
 	}
+	// the pooled OBJECTS of internal/dnsmsg (Msg, Question, resource structs): double release, write after release,
+	// one object handed to two owners
+	dnsmsg.VerifObjFlush()
+	oevs, ocnt := dnsmsg.VerifObjEvents()
+	on := 0
+	for k, c := range ocnt {
+		ks = append(ks, fmt.Sprintf("obj-%s:%d", k, c))
+		on += c
+	}
+	if len(oevs) > 0 {
+		fmt.Fprintf(os.Stderr, "C20 object hook events: %d (first: %s)\n", on, oevs[0].String())
+	}
+	n += on
+	sort.Strings(ks)
 	if len(ks) == 0 {
 		return "-", 0
 	}
@@ -396,6 +421,8 @@ func runOwnership(id string, parts []string) string {
 			pool.VerifPoison(true)
 		}
 		pool.VerifEvents()
+		dnsmsg.VerifObjTrack(true) // ownership tracking of the pooled objects (stays on)
+		dnsmsg.VerifObjEvents()
 		rng := rand.New(rand.NewSource(int64(hx.MustAtoi(f["seed"]))))
 		var o ownOutcome
 		var err error
@@ -406,6 +433,18 @@ func runOwnership(id string, parts []string) string {
 			err = c20Pipeline(f["sched"], rng, &o)
 		case "doh", "doh2":
 			err = c20DoH(f["sc"], f["sched"], mode, rng, &o)
+		case "rdfault":
+			err = c20RdFault(f["tr"], f["sched"], rng, &o)
+		case "listen":
+			err = c20Listen(f["sched"], rng, &o)
+		case "fallback":
+			err = c20Fallback(f["sched"], rng, &o)
+		case "handover":
+			err = c20Handover(f["sched"], rng, &o)
+		case "emptyresp":
+			err = c20EmptyResp(f["sched"], rng, &o)
+		case "prefetch":
+			err = c20Prefetch(f["sched"], rng, &o)
 		default:
 			return "HARNESS-ERROR unknown scenario"
 		}
@@ -418,7 +457,7 @@ func runOwnership(id string, parts []string) string {
 		}
 		viol := 0
 		for _, w := range o.wires {
-			if w != "own" && w != "own2" && w != "none" {
+			if w != "own" && w != "own2" && w != "none" && w != "-" {
 				viol = 1
 			}
 		}
